@@ -98,17 +98,14 @@ def run_case(case, seed):
             if set(y.keys()) != set(reachable):
                 kind = "dropped" if set(reachable) - set(y.keys()) else "extra"
                 bad(f"C11/signature/{kind}/bias={bias_mode}", f"output types {list(y.keys())} but targets reachable through the bank are {reachable}")
-            else:
-                bad("C11/signature/order", f"output type order {list(y.keys())} != target order {reachable}")
-            break
+                break
+            # same types in another order: not demanded by C11 (C20 owns the type order); carry on with the values
         for t, oc in out_sig:
             t = tuple(t)
             if t in got:
                 es = (oc,) + exp_sp + (D,) * t[0]
                 if got[t].shape != es:
                     bad("C11/signature/shape", f"block {t} has shape {got[t].shape}, expected {es}")
-        if tuple(y.is_torus) != flags or y.D != D:
-            bad("C11/meta", "output lost D / boundary flags")
         if v:
             break
         # ---- values: multilinear core (exact where possible) and bias rule
